@@ -30,6 +30,7 @@ def run(R):
     srcs += [c["src"] for c in shellgen.bfs(R, 2)]
     srcs += [c["src"] for c in c03.gen(R, 3, False, name="recbfs") if c["cls"] == "accept"]
     srcs += ["a \\", "\"\"", "''", "cat <<E\nE\n", "cat <<E\n\nE\n", "x=~/a:~b y", "${#*}", "echo ${x#} ${#} $", ">x", "~", "~nosuchuser/x", "a=\\"]
+    srcs += [c["src"] for c in shellgen.deep(12)]       # nesting depth 1..12 of every compound command
     srcs = list(dict.fromkeys(srcs))
     strs = chargen.strings(R, ARITH_ALPHA, 3, name="arith") + chargen.strings(R, PAT_ALPHA, 3, name="pats")
     strs = list(dict.fromkeys(strs))
